@@ -665,3 +665,56 @@ func TestLongFrames(t *testing.T) {
 		}
 	}
 }
+
+// ---------------------------------------------------------------------------
+// the first call of a process: cases of the checks above, each run as the first thing a newly started process does (the test binary
+// starts itself again for every case). Whatever the library prepares lazily - a table filled on first use, a once-guard in one entry
+// point that another entry point relies on - has not been prepared by an earlier case: a bus monitor whose first action is to verify
+// a received frame, a device whose first action is to encode an exception.
+
+func genFresh(t *rapid.T) harness.FreshCase {
+	switch rapid.IntRange(0, 3).Draw(t, "fresh_check") {
+	case 0:
+		return harness.Fresh(chkEmit, genEmitPlain(t))
+	case 1:
+		return harness.Fresh(chkStrings, chkStrings.Gen(t))
+	default:
+		return harness.Fresh(chkEnforce, genEnforce(t))
+	}
+}
+
+var chkFresh = harness.Define("first-call-in-a-fresh-process", genFresh, harness.RunFresh)
+
+func TestFreshProcess(t *testing.T) {
+	// a request and a response frame of every function with a damaged and with the correct trailer, an emitted request, response and exception
+	idx := 0
+	for _, fc := range spec.Functions {
+		var cases []harness.FreshCase
+		rq := fixedReq(fc, harness.Seed()+uint64(fc))
+		if f, _ := emitted(emitCase{Kind: "request", Req: rq}); f != nil {
+			body := f[:len(f)-2]
+			ref := spec.RefCRC16(body)
+			cases = append(cases, harness.Fresh(chkEnforce, enforceCase{Request: true, Body: body, Trailer: ref ^ 0x0100, Source: "fresh-request"}),
+				harness.Fresh(chkEnforce, enforceCase{Request: true, Body: body, Trailer: ref, Source: "fresh-request"}))
+		}
+		rs := fixedResp(fc, harness.Seed()+uint64(fc))
+		if f, _ := emitted(emitCase{Kind: "response", Resp: rs}); f != nil {
+			body := f[:len(f)-2]
+			ref := spec.RefCRC16(body)
+			cases = append(cases, harness.Fresh(chkEnforce, enforceCase{Body: body, Trailer: ref ^ 0x0001, Source: "fresh-response"}),
+				harness.Fresh(chkEnforce, enforceCase{Body: body, Trailer: ref, Source: "fresh-response"}))
+		}
+		cases = append(cases, harness.Fresh(chkEmit, emitCase{Kind: "request", Req: rq}), harness.Fresh(chkEmit, emitCase{Kind: "response", Resp: rs}),
+			harness.Fresh(chkEmit, emitCase{Kind: "exception", Resp: spec.Resp{FC: fc, Unit: 7, IsException: true, Code: 2}}))
+		for _, c := range cases {
+			idx++
+			if !harness.Mine(idx) {
+				continue
+			}
+			if !chkFresh.Eval(t, c) {
+				return
+			}
+		}
+	}
+	chkFresh.Rapid(t, harness.Pick(40, 1500))
+}
